@@ -23,7 +23,8 @@ HANDLER = "delete p; delete u; delete r; delete s; delete t; n = [n + 1]; h();"
 
 
 # operations placed before the first match: they become start actions and run inside start(), after the defaults were stored
-START_PREFIXES = ['s = "cd";', 'p = "k"; p = "j";', 'delete s;', 'delete s; s = "x"; t = "";', 't += [65]; p += [66]; u += [67];', 's = "cd"; delete s; s = "e"; u = "hi"; u = "k";']
+START_PREFIXES = ['s = "cd";', 'p = "k"; p = "j";', 'delete s;', 'delete s; s = "x"; t = "";', 't += [65]; p += [66]; u += [67];', 's = "cd"; delete s; s = "e"; u = "hi"; u = "k";',
+                  'delete s; delete t; h();', 'p = "k"; delete p; s = "cd"; delete s; h();']
 
 
 def program(ops, handler=HANDLER, safe_only=True, prefix=""):
@@ -43,7 +44,7 @@ def programs():
     for ops in SETS:
         out.append(dict(label="STR-" + ops, src=program(ops), argv=[], alphabet=alphabet(ops), sentinels=SENT, uses_oob_index=("k" in ops or "n" in ops)))
     for i, pre in enumerate(START_PREFIXES):
-        ops = ("giokj3", "abcjl", "giobj", "q2gij", "adgjm", "giodj")[i]
+        ops = ("giokj3", "abcjl", "giobj", "q2gij", "adgjm", "giodj", "gqjb", "acgjb")[i]
         out.append(dict(label="STR-start%d" % i, src=program(ops, prefix=pre), argv=[], alphabet=alphabet(ops), sentinels=SENT, uses_oob_index=("k" in ops or "n" in ops)))
     # non-loop shapes: zero-capacity string, defaults, exact fits
     out.append(dict(label="STR-cap0", src='out str[1] e; out int{unsigned, size 1} z1 = 165; hook h; parser { try { e += /a+/; } catch (outofspace) { h(); } "b"; }\n', argv=[], alphabet=list(b"ab"), sentinels={"z1": 165}, uses_oob_index=False))
